@@ -116,6 +116,84 @@ def _resolve_dotted(rec: Tuple[str, Optional[int]], dotted: str) -> Optional[ots
     return field
 
 
+def _eval_rule_list(mod, v: ast.AST, depth: int = 4, env=None) -> ast.AST:
+    """The rule list an entry of the table denotes, when it is not written as a literal: a module constant, `list(X)`, a concatenation, or a call of a
+    module-level factory whose body is `return <list>` (arguments substituted).  Anything else is returned unchanged."""
+    import copy
+    env = env or {}
+    if depth <= 0:
+        return v
+    if isinstance(v, ast.Name):
+        if v.id in env:
+            return _eval_rule_list(mod, env[v.id], depth - 1)
+        if v.id in mod.assigns:
+            return _eval_rule_list(mod, mod.assigns[v.id], depth - 1)
+        return v
+    if isinstance(v, ast.Tuple):
+        return ast.List(elts=[_subst(e, env) for e in v.elts], ctx=ast.Load())
+    if isinstance(v, ast.List):
+        elts = []
+        for e in v.elts:
+            if isinstance(e, ast.Starred):
+                inner = _eval_rule_list(mod, e.value, depth - 1, env)
+                if not isinstance(inner, ast.List):
+                    return v
+                elts += inner.elts
+            else:
+                e2 = _subst(e, env)
+                if isinstance(e2, ast.Name) and e2.id in mod.assigns and isinstance(mod.assigns[e2.id], ast.Call):
+                    e2 = mod.assigns[e2.id]
+                # an element may itself be a call of a factory returning one rule
+                if isinstance(e2, ast.Call) and isinstance(e2.func, ast.Name) and e2.func.id in mod.functions:
+                    r = _inline_factory(mod, e2, depth - 1)
+                    if r is not None and not isinstance(r, ast.List):
+                        e2 = r
+                elts.append(e2)
+        return ast.List(elts=elts, ctx=ast.Load())
+    if isinstance(v, ast.BinOp) and isinstance(v.op, ast.Add):
+        a, b = _eval_rule_list(mod, v.left, depth - 1, env), _eval_rule_list(mod, v.right, depth - 1, env)
+        if isinstance(a, ast.List) and isinstance(b, ast.List):
+            return ast.List(elts=a.elts + b.elts, ctx=ast.Load())
+        return v
+    if isinstance(v, ast.Call) and isinstance(v.func, ast.Name) and v.func.id in ("list", "tuple") and len(v.args) == 1:
+        return _eval_rule_list(mod, v.args[0], depth - 1, env)
+    if isinstance(v, ast.Call) and isinstance(v.func, ast.Name) and v.func.id in mod.functions:
+        r = _inline_factory(mod, v, depth - 1)
+        if r is not None:
+            return _eval_rule_list(mod, r, depth - 1)
+    return v
+
+
+def _subst(e: ast.AST, env) -> ast.AST:
+    import copy
+    if not env:
+        return e
+
+    class S(ast.NodeTransformer):
+        def visit_Name(self, n):
+            return copy.deepcopy(env[n.id]) if n.id in env and isinstance(n.ctx, ast.Load) else n
+    return S().visit(copy.deepcopy(e))
+
+
+def _inline_factory(mod, call: ast.Call, depth: int):
+    f = mod.functions[call.func.id]
+    body = [st for st in f.body if not (isinstance(st, ast.Expr) and isinstance(st.value, ast.Constant))]
+    if len(body) != 1 or not isinstance(body[0], ast.Return) or body[0].value is None:
+        return None
+    a = f.node.args
+    params = [x.arg for x in a.posonlyargs + a.args]
+    defaults = dict(zip(params[len(params) - len(a.defaults):], a.defaults))
+    env = dict(defaults)
+    for p_, arg_ in zip(params, call.args):
+        env[p_] = arg_
+    for kw in call.keywords:
+        if kw.arg:
+            env[kw.arg] = kw.value
+    if any(p_ not in env for p_ in params):
+        return None
+    return _subst(body[0].value, env)
+
+
 def eval_reorder_rules(model: Model):
     mod = model.mod("reorder_glyphs")
     table = mod.const("_REORDER_RULES")
@@ -138,6 +216,7 @@ def eval_reorder_rules(model: Model):
         tname = norm(k.elts[0]).split(".")[-1]
         fmt = k.elts[1].value if isinstance(k.elts[1], ast.Constant) else None
         rules = []
+        v = _eval_rule_list(mod, v)
         if not isinstance(v, ast.List):
             raise AnalysisError(f"_REORDER_RULES[{short(k)}] is not a list literal")
         for c in v.elts:
